@@ -7,51 +7,58 @@
     `Ref`   = the textbook semantics (world + stack of saved worlds), which is what go-ethereum's
               `state.StateDB` computes.
   The `evm` engine compares, on every run, the adapter with `Impl` and go-ethereum with `Ref`
-  call by call, and the adapter with go-ethereum directly (the monitor).
+  call by call, and the adapter with go-ethereum directly (the monitor), down to the raw records
+  after every `Finalise`.
 
-  FULL STATEMENT (DESIGN §6 C16), which is still FALSE of the code in one respect:
+  FULL STATEMENT (DESIGN §6 C16):
 
       theorem impl_refines_ref (c : Cfg) (ops : List Op) :
           Impl.run c (Impl.init Store.empty) ops = Ref.run c (Ref.init []) ops
       theorem any_client_same_result (c : Cfg) (cl : Client α) :
           (cl.runImpl c (Impl.init Store.empty)).1 = (cl.runRef c (Ref.init [])).1
 
-  History.  Five mechanisms of the adapter broke it when this slice was written; four were repaired
+  History.  Six mechanisms of the adapter broke it when this slice was written; all were repaired
   in /repo after the monitor replayed them (da864f3 + c90a103 balance record of a removed account,
   f45414e `journal.deleteDirty` re-indexes, d411c44 undoing a balance change does not journal,
-  b55dd24 + 078c4d3 a code equal to the store's deletion marker is refused and `Finalise` fails).
-  Their former counterexamples are regression theorems below (`regress_*`: Impl = Ref).
+  b55dd24 + 078c4d3 a code equal to the store's deletion marker is refused and `Finalise` fails,
+  8684164 the storage records of an account are deleted with it and a `created` object does not
+  read those of its predecessor: the former S8 / KF-C16-2).  Their former counterexamples are
+  regression theorems below (`regress_*`: Impl = Ref).
 
-  What is left (known finding KF-C16-2, signature `recreated-account-keeps-storage`): storage
-  records are never deleted and `createObject` does not hide them, so an account created again at
-  an address (CREATE2 after SELFDESTRUCT, or `CreateAccount` over a live account) reads the old
-  slots — `recreated_account_keeps_storage`, `createAccount_keeps_storage`.
-
-  What IS proved (`impl_refines_ref_partial`, `any_client_same_result_partial`): for EVERY call
-  sequence / client, from every sane starting state, as long as the run stays inside
-  `Impl.safeRun` — a decidable predicate on the adapter's own state (`Impl.guard`,
-  `Impl.finaliseGuard` in Model.lean) — the adapter returns what the reference returns, call by
-  call, including arbitrary nesting of Snapshot / RevertToSnapshot and Finalise between
-  transactions; in particular the adapter panics exactly where the reference does
+  What is proved (`impl_refines_ref_partial`, `any_client_same_result_partial`): for EVERY call
+  sequence / client, from every sane starting state (`Store.sane`: no empty account in the
+  records, the code of every account present — kept by every call, `storeOK_preserved`, and true
+  of the empty records), as long as the run stays inside `Impl.safeRun` — a decidable predicate
+  on the adapter's own state (`Impl.guard`, Model.lean) — the adapter returns what the reference
+  returns, call by call, including arbitrary nesting of Snapshot / RevertToSnapshot and Finalise
+  between transactions; in particular the adapter panics exactly where the reference does
   (`panics_are_shared`: SubRefund below zero, an invalid revision, SubBalance beyond the balance)
   — no journal operation, no undo of a journal entry and no dirty-counter update can fail.
-  The predicate excludes:
-    * KF-C16-2: `Finalise` deleting an account that has non-zero storage records, `CreateAccount`
-      over a live account that has some;
-    * writing out a code equal to the deletion marker (3 bytes e2 9b bc): the store refuses it and
-      `Finalise` fails the transaction (`marker_code_fails_finalise`), for which the reference
-      semantics has no counterpart — a documented exclusion of the input class, not a divergence
-      of what is read back;
-    * `Finalise(false)` (would leave empty accounts in the records; never called by the code);
-    * two modelling restrictions: the RIPEMD touch exception, and Prepare / Reset inside a
-      transaction (both are in the models and compared with go-ethereum by the correspondence run);
-    Nothing else.  Three conditions that were guards while the journal bookkeeping was broken or
-    before they were proved are invariants of every reachable state now (Lemmas.lean): `JOK`
-    (every journal entry can be undone: its account / log is there when its turn comes), `JCnt`
-    (the dirty counters count the live journal entries, so `Finalise` writes out every account
-    that has one), `OOK` (every dirty slot has its original value cached when `commitState` runs,
-    followed through `createObject` / `resetObject` entries); and the access list is abstracted
-    to counts, so a slot listed without its address could not make the two differ.
+
+  The predicate excludes four things, and the theorems keep the name `_partial` for the first:
+    1. `Finalise` returning the store's error: an object is written out whose new code is the
+       deletion marker (3 bytes e2 9b bc).  REACHABLE from a transaction (a deployment whose
+       runtime code is exactly those bytes); deliberate since 078c4d3: the transaction fails,
+       where go-ethereum stores the code (`marker_code_fails_finalise`).  The guard is exact:
+       `Impl.finaliseGuard` is "this `Finalise(true)` returns no error".
+    2. `Finalise(false)`.  NOT reachable from a transaction: the only call is `Finalise(true)`
+       in vm/evm.go `EVMTransaction.Apply`.
+    3. `Prepare` with a non-empty journal or open revisions.  NOT reachable: `Prepare` is called
+       at the top of DeliverTx (app/controller.go), after the `Finalise` that ends every applied
+       transaction and whose deferred function empties journal and revisions even when it fails.
+    4. `Reset` with a non-empty journal.  NOT reachable: called in EndBlock only, same argument.
+    (2–4 are restrictions of the reference model rather than of the adapter: go-ethereum's own
+    `Prepare` is not journaled either.)
+  Nothing else.  Not the RIPEMD touch exception (its extra dirty count and the reference's sticky
+  touch decide nothing because the records hold no empty account), not storage records under an
+  address without an account (a `created` object does not read them).  That every journal entry
+  can be undone (`JOK`), that `Finalise` sees every account with a live journal entry as dirty
+  (`JCnt`), and that every dirty slot has its original value cached when `commitState` runs
+  (`OOK`) are proved invariants (Lemmas.lean); the access list is abstracted to counts.
+
+  At the level of the records, which the interface cannot see: `no_orphan_storage_invariant` —
+  no storage record is ever left under an address without an account.
+
   The driver evaluates the predicate on every correspondence line and reports which part fails
   first (`guard-first-failure:*` in the evidence).
 -/
@@ -72,17 +79,16 @@ theorem sameStart_empty : SameStart Store.empty [] := by
   simp [Store.view, Store.getAccount, Store.empty, Store.balOf, alookup]
 
 theorem storeOK_empty : StoreOK Store.empty := by
-  refine ⟨?_, ?_, ?_⟩
+  refine ⟨?_, ?_⟩
   · intro a o h; simp [Store.getAccount, Store.empty, Store.balOf, alookup] at h
-  · intro a _ k; simp [Store.slot, Store.empty, alookup]
   · intro a n h hh; simp [Store.empty, alookup] at hh
 
 /-- the decidable sanity check of the records (evaluated by the driver on every starting state)
     implies the hypothesis of the theorems -/
 theorem sane_storeOK (st : Store) (h : st.sane = true) : StoreOK st := by
   simp only [Store.sane, Bool.and_eq_true, List.all_eq_true] at h
-  obtain ⟨⟨h1, h2⟩, h3⟩ := h
-  refine ⟨?_, ?_, ?_⟩
+  obtain ⟨h1, h3⟩ := h
+  refine ⟨?_, ?_⟩
   · intro a o hg
     unfold Store.getAccount at hg
     cases hl : alookup a st.acct with
@@ -104,14 +110,6 @@ theorem sane_storeOK (st : Store) (h : st.sane = true) : StoreOK st := by
       · simp only [hb, if_false, Option.some.injEq] at hg
         subst hg
         simp [Obj.empty, Obj.fresh, hb]
-  · intro a hg k
-    unfold Store.slot
-    cases hl : alookup (a, k) st.stor with
-    | none => rfl
-    | some v =>
-      have := h2 ((a, k), v) (alookup_mem _ _ _ hl)
-      simp only [hg, Option.isSome_none, Bool.or_false, beq_iff_eq, Bool.false_eq_true] at this
-      simpa using this
   · intro a n hh hl hz
     have := h3 (a, (n, hh)) (alookup_mem _ _ _ hl)
     simp only [Bool.or_eq_true, beq_iff_eq] at this
@@ -124,7 +122,7 @@ theorem sim_init (st : Store) (w0 : List (Addr × RAcct)) (hs : StoreOK st) (h0 
   have hv : ∀ a, (Impl.init st).view a = st.view a := by intro a; simp [Impl.view, Impl.init, alookup]
   refine ⟨⟨by intro a o ha; simp [Impl.init, alookup] at ha, by simp [Impl.init, akeys], hs⟩,
     by intro e he; simp [Impl.init, Journal.new] at he, ?_, rfl, rfl, by intro a; simp [Ref.init, Impl.init, Journal.new],
-    ?_, h0.1, trivial, by intro x hx; simp [Impl.init] at hx, by simp [Impl.init], by simp [Impl.init], rfl,
+    ?_, h0.1, trivial, by intro x hx; simp [Impl.init] at hx, by simp [Impl.init], by simp [Impl.init],
     by simp [Impl.init, Journal.new, JOK], JCnt.new, by simp [Impl.init, Journal.new, OOK]⟩
   · simp only [absI, absR, AW.mk.injEq]
     refine ⟨?_, rfl, ?_, rfl, rfl, rfl⟩
@@ -164,7 +162,19 @@ theorem run_refines (c : Cfg) : ∀ (ops : List Op) (s : Impl) (r : Ref), Sim s 
       · exact absurd h1 hp
       · exact h1
 
-/-- `impl_refines_ref`, under the guards the code forces -/
+/-- the sanity of the records (`StoreOK`, decidably `Store.sane`) is an invariant: kept by every
+    call inside the guards (and true of the empty records, `storeOK_empty`) -/
+theorem storeOK_preserved (c : Cfg) (s : Impl) (r : Ref) (h : Sim s r) (op : Op) (hsafe : s.safeStep c op = true)
+    (hp : (s.step c op).2 ≠ .panic) : StoreOK (s.step c op).1.store :=
+  ((sim_step c h op hsafe).2 hp).cinv.store
+
+/-- `impl_refines_ref`, under the guards the code forces.  `_partial` because `safeRun` excludes one
+    behaviour a transaction can reach: `Finalise` returning the store's error for a written-out
+    code equal to the deletion marker (deliberate since 078c4d3; `marker_code_fails_finalise`).
+    The other three exclusions cannot be reached from a transaction: `Finalise(false)` (the only
+    call is `Finalise(true)`, vm/evm.go `Apply`), `Prepare` and `Reset` with a non-empty journal
+    (app/controller.go calls them at the top of DeliverTx and in EndBlock, after the `Finalise`
+    that ends every applied transaction and empties the journal even when it fails). -/
 theorem impl_refines_ref_partial (c : Cfg) (st : Store) (w0 : List (Addr × RAcct)) (hs : StoreOK st)
     (h0 : SameStart st w0) (ops : List Op) (hsafe : (Impl.init st).safeRun c ops = true) :
     Impl.run c (Impl.init st) ops = Ref.run c (Ref.init w0) ops :=
@@ -204,7 +214,8 @@ theorem client_refines (c : Cfg) {α : Type} : ∀ (cl : Client α) (s : Impl) (
         · exact h1
       rw [ih (s.step c op).2 (s.step c op).1 (r.step c op).1 (hstep.2 hp) hsafe']
 
-/-- the step that turns "same interface behaviour" into "same result for every bytecode program":
+/-- (`_partial`: see `impl_refines_ref_partial` — the one reachable exclusion is the marker code.)
+    The step that turns "same interface behaviour" into "same result for every bytecode program":
     the EVM interpreter is a deterministic client of the interface (trusted: go-ethereum's EVM uses
     the state only through `vm.StateDB`) -/
 theorem any_client_same_result_partial (c : Cfg) {α : Type} (st : Store) (w0 : List (Addr × RAcct)) (hs : StoreOK st)
@@ -212,7 +223,46 @@ theorem any_client_same_result_partial (c : Cfg) {α : Type} (st : Store) (w0 : 
     cl.runImpl c (Impl.init st) = cl.runRef c (Ref.init w0) :=
   client_refines c cl _ _ (sim_init st w0 hs h0) hsafe
 
-/-! ## 4. The reference semantics is the textbook one -/
+/-! ## 4. The records: the storage of an account ends with the account (8684164, former S8) -/
+
+/-- one call keeps "no storage record under an address without an account": every call but
+    `Finalise` leaves the records alone, and `Finalise` deletes the storage records of every
+    account it deletes -/
+theorem no_orphan_storage_step (c : Cfg) (s : Impl) (r : Ref) (h : Sim s r) (op : Op) (hsafe : s.safeStep c op = true)
+    (hcl : NoOrphanStorage s.store) : NoOrphanStorage (s.step c op).1.store := by
+  by_cases hop : ∃ b, op = .finalise b
+  · obtain ⟨b, rfl⟩ := hop
+    have hgd : s.guard c (.finalise b) = true := hsafe
+    simp only [Impl.guard, Bool.and_eq_true] at hgd
+    have hb : b = true := hgd.1
+    subst hb
+    have := (sim_finalise c h hgd.2).2.2 hcl
+    simpa [Impl.step] using this
+  · rw [step_store c s op (fun b e => hop ⟨b, e⟩)]
+    exact hcl
+
+theorem no_orphan_storage_run (c : Cfg) : ∀ (ops : List Op) (s : Impl) (r : Ref), Sim s r → s.safeRun c ops = true →
+    NoOrphanStorage s.store → NoOrphanStorage (Impl.endState c s ops).store
+  | [], _, _, _, _, hcl => hcl
+  | op :: ops, s, r, h, hs, hcl => by
+    simp only [Impl.safeRun, Bool.and_eq_true, Bool.or_eq_true, beq_iff_eq] at hs
+    simp only [Impl.endState]
+    by_cases hp : (s.step c op).2 = .panic
+    · simp only [hp, if_true]; exact hcl
+    · simp only [hp, if_false]
+      refine no_orphan_storage_run c ops _ _ ((sim_step c h op hs.1).2 hp) ?_ (no_orphan_storage_step c s r h op hs.1 hcl)
+      rcases hs.2 with h1 | h1
+      · exact absurd h1 hp
+      · exact h1
+
+/-- from the empty records, whatever is called inside the guards: no storage record is ever left
+    under an address without an account -/
+theorem no_orphan_storage_invariant (c : Cfg) (ops : List Op) (hsafe : (Impl.init Store.empty).safeRun c ops = true) :
+    NoOrphanStorage (Impl.endState c (Impl.init Store.empty) ops).store :=
+  no_orphan_storage_run c ops _ _ (sim_init Store.empty [] storeOK_empty sameStart_empty) hsafe
+    (by intro a _ k; simp [Store.slot, Store.empty, Impl.init, alookup])
+
+/-! ## 5. The reference semantics is the textbook one -/
 
 /-- a revert gives back exactly the world saved by the snapshot, whatever happened in between -/
 theorem ref_revert_restores (c : Cfg) (r : Ref) (hstack : r.stack = []) (ops : List Op) (r1 : Ref)
@@ -235,25 +285,42 @@ theorem ref_finalise_promotes (r : Ref) (b : Bool) (a : Addr) (x : RAcct)
   simp only [Prod.mk.injEq] at har
   rw [← har.2]
 
-/-! ## 5. What is left of the full statement, and regressions of what was repaired -/
+/-! ## 6. The one exclusion a transaction can reach, and regressions of what was repaired -/
 
 def cfg : Cfg := { tomb := 99, ripemd := 3 }
 def start : Impl := Impl.init Store.empty
 def rstart : Ref := Ref.init []
 
-/-- KF-C16-2a. storage records survive the deletion of their account: created again, it reads them -/
-theorem recreated_account_keeps_storage :
-    let ops := [Op.setNonce 1 1, .setState 1 0 5, .finalise true, .suicide 1, .finalise true, .setNonce 1 1, .getState 1 0]
-    Impl.run cfg start ops = [.unit, .unit, .unit, .bool true, .unit, .unit, .nat 5] ∧
-    Ref.run cfg rstart ops = [.unit, .unit, .unit, .bool true, .unit, .unit, .nat 0] ∧
-    start.safeRun cfg ops = false := by decide
+/-- repaired (8684164), former KF-C16-2a: the storage records of a deleted account go with it;
+    created again at the address, the account reads empty storage -/
+theorem regress_recreated_account_reads_empty_storage :
+    let ops := [Op.setNonce 1 1, .setState 1 0 5, .finalise true, .suicide 1, .finalise true, .setNonce 1 1, .getState 1 0,
+                .getCommittedState 1 0]
+    Impl.run cfg start ops = [.unit, .unit, .unit, .bool true, .unit, .unit, .nat 0, .nat 0] ∧
+    Ref.run cfg rstart ops = Impl.run cfg start ops ∧ start.safeRun cfg ops = true := by decide
 
-/-- KF-C16-2b. `CreateAccount` over a live account keeps its storage records readable -/
-theorem createAccount_keeps_storage :
-    let ops := [Op.setNonce 1 1, .setState 1 0 5, .finalise true, .createAccount 1, .getState 1 0, .getCommittedState 1 0]
-    Impl.run cfg start ops = [.unit, .unit, .unit, .unit, .nat 5, .nat 5] ∧
-    Ref.run cfg rstart ops = [.unit, .unit, .unit, .unit, .nat 0, .nat 0] ∧
-    start.safeRun cfg ops = false := by decide
+/-- repaired (8684164), former KF-C16-2b: `CreateAccount` over a live account starts it with empty
+    storage; the old records are gone when it is written out, and a revert brings them back -/
+theorem regress_createAccount_over_storage :
+    let ops := [Op.setNonce 1 1, .setState 1 0 5, .finalise true, .snapshot, .createAccount 1, .getState 1 0,
+                .getCommittedState 1 0, .revertToSnapshot 0, .getState 1 0, .createAccount 1, .setNonce 1 1,
+                .setState 1 1 7, .finalise true, .getState 1 0, .getState 1 1]
+    Impl.run cfg start ops = [.unit, .unit, .unit, .nat 0, .unit, .nat 0, .nat 0, .unit, .nat 5, .unit, .unit, .unit, .unit,
+                              .nat 0, .nat 7] ∧
+    Ref.run cfg rstart ops = Impl.run cfg start ops ∧ start.safeRun cfg ops = true := by decide
+
+/-- storage records under an address without an account (left by a deletion before 8684164) are
+    inside the theorem: the account created there does not read them, and they are deleted when it
+    is written out -/
+def residueStore : Store := { acct := [], bal := [], code := [], stor := [((1, 0), 5), ((1, 2), 6)] }
+
+theorem regress_historic_residue_not_read :
+    let ops := [Op.getState 1 0, .setNonce 1 1, .getState 1 0, .setState 1 1 7, .finalise true, .getState 1 0, .getState 1 1,
+                .getCommittedState 1 2]
+    residueStore.sane = true ∧ sameStartb residueStore [] = true ∧
+    Impl.run cfg (Impl.init residueStore) ops = [.nat 0, .unit, .nat 0, .unit, .unit, .nat 0, .nat 7, .nat 0] ∧
+    Ref.run cfg rstart ops = Impl.run cfg (Impl.init residueStore) ops ∧
+    (ops.foldl (fun s op => (s.step cfg op).1) (Impl.init residueStore)).store.stor = [((1, 1), 7)] := by decide
 
 /-- the excluded input class: a code equal to the deletion marker makes `Finalise` fail (the
     reference has no such error); nothing is read back differently before that -/
@@ -289,7 +356,7 @@ theorem regress_reverted_transfer_keeps_empty_account :
     Impl.run cfg start ops = [.unit, .unit, .nat 0, .unit, .unit, .unit, .bool true] ∧
     Ref.run cfg rstart ops = Impl.run cfg start ops := by decide
 
-/-! ## 6. Non-vacuity: the guards are met by non-trivial runs -/
+/-! ## 7. Non-vacuity: the guards are met by non-trivial runs -/
 
 /-- two transactions with nested snapshots, a revert of the inner and of the outer one, storage,
     balance, nonce, code, refund, log, access list and self-destruct of a fresh account -/
@@ -309,6 +376,27 @@ example : Impl.run cfg start exOps =
     [.unit, .unit, .unit, .unit, .unit, .nat 0, .unit, .unit, .nat 1, .unit, .unit, .unit, .unit, .unit, .nat 10, .nat 6,
      .unit, .nat 5, .nat 0, .unit, .unit, .nat 5, .unit, .nat 2, .unit, .unit, .bool true, .unit, .bool false, .unit,
      .nat 0, .code 7, .bool false] := by decide
+
+/-- the RIPEMD touch exception is inside the theorem: the precompile touched with a zero amount
+    inside a reverted call, then read, paid and finalised -/
+def exOpsRipemd : List Op :=
+  [.prepare 1, .snapshot, .addBalance 3 0, .exist 3, .revertToSnapshot 0, .exist 3, .finalise true, .exist 3,
+   .prepare 2, .addBalance 3 0, .snapshot, .addBalance 3 5, .revertToSnapshot 1, .getBalance 3, .finalise true, .exist 3,
+   .prepare 3, .addBalance 3 5, .finalise true, .prepare 4, .snapshot, .addBalance 3 0, .revertToSnapshot 2, .finalise true,
+   .getBalance 3]
+
+example : start.safeRun cfg exOpsRipemd = true ∧
+    Impl.run cfg start exOpsRipemd = Ref.run cfg rstart exOpsRipemd ∧
+    Impl.run cfg start exOpsRipemd =
+      [.unit, .nat 0, .unit, .bool true, .unit, .bool false, .unit, .bool false,
+       .unit, .unit, .nat 1, .unit, .unit, .nat 0, .unit, .bool false,
+       .unit, .unit, .unit, .unit, .nat 2, .unit, .unit, .unit, .nat 5] := by decide
+
+/-- the records after a self-destruct: the storage records are gone with the account -/
+example :
+    (Impl.endState cfg start [.setNonce 1 1, .setState 1 0 5, .setState 1 1 6, .finalise true]).store.stor = [((1, 0), 5), ((1, 1), 6)] ∧
+    (Impl.endState cfg start [.setNonce 1 1, .setState 1 0 5, .setState 1 1 6, .finalise true, .suicide 1, .finalise true]).store.stor
+      = [] := by decide
 
 /-- a starting state with a contract (code 7, slot 0 = 5), an account that has only a balance
     record, and an externally owned account -/
